@@ -696,7 +696,6 @@ func ruleDefaultAAA(p *Program, r *Result) {
 		fmt.Sprintf("NewAAA does not start from the default-deny handlers (found %v)", set))
 }
 
-
 // sameCellValue: a and b denote the same object: identical values, or two loads of the same local cell that
 // is assigned exactly once (a parameter captured by a closure is read through its cell each time).
 func sameCellValue(a, b ssa.Value) bool {
